@@ -24,24 +24,36 @@ Definition enc_res (r : res (list nat)) : list nat :=
   match r with Ok l => 0 :: l | Reject => [1] | OutOfFuel => [2] | Crash => [3] end.
 Definition enc_tab (r : table_result) : list (list nat) :=
   match r with TableOk m => [0] :: m | TableErr m i => [1; i] :: m | TableBad m i => [2; i] :: m end.
-Fixpoint leqb (a b : list nat) : bool :=
-  match a, b with [], [] => true | x :: a', y :: b' => Nat.eqb x y && leqb a' b' | _, _ => false end.
-Fixpoint lleqb (a b : list (list nat)) : bool :=
-  match a, b with [], [] => true | x :: a', y :: b' => leqb x y && lleqb a' b' | _, _ => false end.
-Fixpoint bad_idx {A} (f : A -> bool) (i : nat) (l : list A) : list nat :=
-  match l with [] => [] | x :: t => if f x then bad_idx f (S i) t else i :: bad_idx f (S i) t end.
-(* (H, CPython's answer, pure pytype answer (MROMerge per class), GetBasesInMRO for the last class over the rest) *)
-Definition chk_t (c : list (list nat) * list (list nat) * list (list nat) * list nat) : bool :=
-  let '(H, ec, ep, ed) := c in
-  lleqb (enc_tab (mros_c H)) ec && lleqb (enc_tab (mros_py false H)) ep &&
-  leqb (enc_res (get_bases_in_mro (removelast H) (last H []))) ed.
-(* (seqs, singleton elements, MROMerge's answer) *)
-Definition chk_m (c : list (list nat) * list nat * list nat) : bool :=
-  let '(seqs, sing, e) := c in leqb (enc_res (merge_py_gen (fun x => mem x sing) seqs)) e.
-(* (H, table observed through compute_mro): does the model with dupcheck=false / true reproduce it? *)
-Definition chk_e (c : list (list nat) * list (list nat)) : bool * bool :=
-  let '(H, e) := c in (lleqb (enc_tab (mros_py false H)) e, lleqb (enc_tab (mros_py true H)) e).
+Definition run_t (H : list (list nat)) :=
+  (enc_tab (mros_c H), enc_tab (mros_py false H), enc_tab (mros_py true H),
+   enc_res (get_bases_in_mro (removelast H) (last H []))).
+Definition run_m (c : list nat * list (list nat)) := enc_res (merge_py_gen (fun x => mem x (fst c)) (snd c)).
 """
+
+
+def line_l(l):
+  return " ".join([str(len(l))] + [str(x) for x in l])
+
+
+def line_ll(ll):
+  return " ".join([str(len(ll))] + [line_l(l) for l in ll])
+
+
+def parse_tab(s):
+  """'1 5 ; 0 ; 1 0' -> [[1,5],[0],[1,0]]"""
+  return [[int(x) for x in part.split()] for part in s.split(";")]
+
+
+def run_model(exe, lines):
+  pr = subprocess.run([exe], input="\n".join(lines) + "\n", capture_output=True, text=True)
+  if pr.returncode != 0:
+    raise common.BuildError("extracted model failed: " + pr.stderr[-1500:])
+  out = pr.stdout.split("\n")
+  if out and out[-1] == "":
+    out.pop()
+  if len(out) != len(lines):
+    raise common.BuildError("extracted model printed %d lines for %d cases" % (len(out), len(lines)))
+  return out
 
 
 def coq_list(l):
@@ -301,8 +313,6 @@ def run(res):
     attrs = (attrs or g.random_attrs(r2, H))[:len(H)]
     stub_frac = 0.4 if thorough else 0.25
     mode = "stub" if (k % 100) < stub_frac * 100 else "source"
-    if k < 2 * len(corpus):
-      pass
     jobs.append(make_job(len(jobs), mode, H, attrs, r2.randrange(4)))
     if k < len(corpus):   # corpus tables go through both modes
       jobs.append(make_job(len(jobs), "stub" if mode == "source" else "source", H, attrs, 1))
@@ -314,21 +324,25 @@ def run(res):
 
   # ---- Coq theorems -------------------------------------------------------------------------
   common.coq_obligations(res, "C10")
+  exe = common.build_extracted("mro", "Extract/ExtractMro.v",
+                               os.path.join(common.VERIF, "harness", "ocaml", "mro_driver.ml"), ["mro_model"])
+  res.trusted_base += ["Coq extraction (ExtrOcamlBasic only) + OCaml 4.13.1 ocamlopt + harness/ocaml/mro_driver.ml "
+                       "(cross-checked on every run against in-kernel vm_compute on a sample)"]
 
   # ---- pure correspondence ------------------------------------------------------------------
   t1 = time.time()
-  sys.path.insert(0, common.REPO) if common.REPO not in sys.path else None
-  case_lines = []
+  if common.REPO not in sys.path:
+    sys.path.insert(0, common.REPO)
   hist_sizes, hist_out = {}, {"all-created": 0, "inconsistent-order": 0, "duplicate-base": 0}
   n_viol_pure = 0
+  impl_t = []
   for name, H in tables:
     cm, cf, cmsg = g.cpython_table(H)
     pm, pf, pmerges = g.py_table(H)
     pd = g.pytd_bases_in_mro(H[:-1], H[-1])
-    case_lines.append((name, H, "(%s,%s,%s,%s)" % (coq_llist(H), coq_llist(g.enc_table(cm, cf)),
-                                                    coq_llist(g.enc_table(pm, pf)), coq_list(pd))))
-    for s in pmerges:
-      merges.append((s, []))
+    impl_t.append((g.enc_table(cm, cf), g.enc_table(pm, pf), pd))
+    for sq in pmerges:
+      merges.append((sq, []))
     hist_sizes[len(H) - 1] = hist_sizes.get(len(H) - 1, 0) + 1
     hist_out["all-created" if cf is None else ("duplicate-base" if cmsg.startswith("duplicate") else "inconsistent-order")] += 1
     nontrivial = any(len(b) >= 2 for b in H)
@@ -348,44 +362,52 @@ def run(res):
     seen.add(key)
     mcases.append((seqs, sing, g.py_merge(seqs, sing)))
     res.count(("merge", key) if len(seqs) >= 2 else None)
-  per = 2000 if thorough else 500
-  bodies = []
-  chunks_t = [case_lines[k:k + per] for k in range(0, len(case_lines), per)]
-  for k, ch in enumerate(chunks_t):
-    bodies.append(("c10_t%d" % k, PREAMBLE +
-                   "Definition cases : list (list (list nat) * list (list nat) * list (list nat) * list nat) := [\n" +
-                   ";\n".join(c[2] for c in ch) + "].\nEval vm_compute in (bad_idx chk_t 0 cases).\n"))
-  chunks_m = [mcases[k:k + per] for k in range(0, len(mcases), per)]
-  for k, ch in enumerate(chunks_m):
-    bodies.append(("c10_m%d" % k, PREAMBLE +
-                   "Definition cases : list (list (list nat) * list nat * list nat) := [\n" +
-                   ";\n".join("(%s,%s,%s)" % (coq_llist(s), coq_list(sg), coq_list(e)) for s, sg, e in ch) +
-                   "].\nEval vm_compute in (bad_idx chk_m 0 cases).\n"))
-  outs = common.run_cases_parallel(bodies)
-  bad_t, bad_m, run_fail = [], [], []
-  for k, ch in enumerate(chunks_t):
-    ok, out = outs["c10_t%d" % k]
-    terms = common.parse_coq_eval(out)
-    if not ok or len(terms) != 1:
-      run_fail.append(out[-800:]); continue
-    bad_t += [ch[i] for i in parse_nat_list(terms[0])]
-  for k, ch in enumerate(chunks_m):
-    ok, out = outs["c10_m%d" % k]
-    terms = common.parse_coq_eval(out)
-    if not ok or len(terms) != 1:
-      run_fail.append(out[-800:]); continue
-    bad_m += [ch[i] for i in parse_nat_list(terms[0])]
-  res.obligation("model-run:cases.v", not run_fail, "\n".join(run_fail[:2]))
-  detail = ""
-  if bad_t:
-    name, H, _ = bad_t[0]
-    detail = "first: %s H=%s cpython=%s pytype(MROMerge)=%s GetBasesInMRO=%s" % (
-        name, H, g.enc_table(*g.cpython_table(H)[:2]), g.enc_table(*g.py_table(H)[:2]), g.pytd_bases_in_mro(H[:-1], H[-1]))
-  res.obligation("correspondence:mros_c-vs-interpreter,mros_py-vs-MROMerge,get_bases_in_mro-vs-GetBasesInMRO",
-                 not bad_t, "%d of %d tables disagree. %s" % (len(bad_t), len(case_lines), detail))
+  model_t = run_model(exe, ["T " + line_ll(H) for _, H in tables])
+  model_m = run_model(exe, ["M %s %s" % (line_l(sg), line_ll(sq)) for sq, sg, _ in mcases])
+  bad_c, bad_p, bad_d, bad_m = [], [], [], []
+  for (name, H), (ic, ip, idd), mo in zip(tables, impl_t, model_t):
+    mc, mp, _, md = [x.strip() for x in mo.split("|")]
+    if parse_tab(mc) != ic:
+      bad_c.append((name, H, "interpreter=%s model=%s" % (ic, parse_tab(mc))))
+    if parse_tab(mp) != ip:
+      bad_p.append((name, H, "MROMerge-per-class=%s model=%s" % (ip, parse_tab(mp))))
+    if [int(x) for x in md.split()] != idd:
+      bad_d.append((name, H, "GetBasesInMRO=%s model=%s" % (idd, md)))
+  for (sq, sg, e), mo in zip(mcases, model_m):
+    if [int(x) for x in mo.split()] != e:
+      bad_m.append((sq, sg, "MROMerge=%s model=%s" % (e, mo)))
+  res.obligation("correspondence:mros_c-vs-interpreter(type().__mro__/TypeError)", not bad_c,
+                 "%d of %d tables disagree; first: %s" % (len(bad_c), len(tables), bad_c[:1]))
+  res.obligation("correspondence:mros_py-vs-mro.MROMerge-per-class", not bad_p,
+                 "%d of %d tables disagree; first: %s" % (len(bad_p), len(tables), bad_p[:1]))
+  res.obligation("correspondence:get_bases_in_mro-vs-mro.GetBasesInMRO", not bad_d,
+                 "%d of %d tables disagree; first: %s" % (len(bad_d), len(tables), bad_d[:1]))
   res.obligation("correspondence:merge_py_gen-vs-mro.MROMerge", not bad_m,
                  "%d of %d sequence lists disagree; first: %s" % (len(bad_m), len(mcases), bad_m[:1]))
-  res.extra["tables"] = len(case_lines)
+  # the extracted runner against the kernel's own evaluation (vm_compute) on a sample
+  r3 = common.rng(res.seed, "c10", "kernel")
+  ks = [i for i in range(len(tables)) if tables[i][0].startswith("corpus")] + r3.sample(range(len(tables)), min(80, len(tables)))
+  km = r3.sample(range(len(mcases)), min(80, len(mcases)))
+  body = PREAMBLE + "Eval vm_compute in (map run_t %s).\nEval vm_compute in (map run_m %s).\n" % (
+      "[" + ";".join(coq_llist(tables[i][1]) for i in ks) + "]",
+      "[" + ";".join("(%s,%s)" % (coq_list(mcases[i][1]), coq_llist(mcases[i][0])) for i in km) + "]")
+  ok, out = common.run_cases_v("c10_kernel", body)
+  terms = common.parse_coq_eval(out) if ok else []
+  def canon_model_t(mo):
+    return re.sub(r"[^0-9;|]+", " ", mo)
+  kernel_ok = ok and len(terms) == 2
+  kdetail = out[-600:] if not kernel_ok else ""
+  if kernel_ok:
+    # compare digit streams: kernel prints nested Coq lists, the runner prints flat text
+    want = " ".join(" ".join(re.findall(r"\d+", model_t[i])) for i in ks)
+    got = " ".join(re.findall(r"\d+", terms[0]))
+    want_m = " ".join(" ".join(re.findall(r"\d+", model_m[i])) for i in km)
+    got_m = " ".join(re.findall(r"\d+", terms[1]))
+    kernel_ok = want == got and want_m == got_m
+    kdetail = "" if kernel_ok else "extracted runner and vm_compute print different results"
+  res.obligation("extraction-crosscheck:vm_compute-vs-extracted-runner", kernel_ok, kdetail)
+  res.extra["kernel_crosscheck_cases"] = len(ks) + len(km)
+  res.extra["tables"] = len(tables)
   res.extra["exhaustive_tables"] = len(ex)
   res.extra["merge_inputs"] = len(mcases)
   res.extra["merge_inputs_with_singletons"] = sum(1 for _, sg, _ in mcases if sg)
@@ -403,6 +425,7 @@ def run(res):
   e2e_hist = {"source": 0, "stub": 0, "cpython-refuses-last-class": 0, "with-repeated-base": 0, "not-explorable": 0}
   fp_seen = {}
   n_unobserved = 0
+  lookups = []     # (job, class, name, cpython's defining class, pytype's defining class or None)
   for job in jobs:
     out = results.get(job["id"])
     if out is None:
@@ -421,6 +444,14 @@ def run(res):
       n_unobserved += 1
     else:
       ecases.append((job, obs))
+    if not out.get("exc"):
+      cpy_vals, _ = g.run_in_cpython(job["oracle_text"])
+      stub_types = dict(re.findall(r"^(\w+): (.+)$", out["pyi"], re.M))
+      for v, (ci, n, kind) in job["probes"].items():
+        if kind == "instance" or v not in cpy_vals:
+          continue
+        pt = re.match(r"^(?:foo\.)?T(\d+)$", stub_types.get(v, ""))
+        lookups.append((job, ci, n, int(cpy_vals[v][1:]), int(pt.group(1)) if pt else None))
     if len(res.samples) < 4 and nontrivial and len(job["H"]) >= 5 and not issues:
       res.sample({"mode": job["mode"], "H": job["H"], "attrs": job["attrs"], "cpython_refuses": job["fail"],
                   "pytype_errors": out["errors"], "observed_compute_mro": obs})
@@ -429,7 +460,10 @@ def run(res):
   for fp, lst in sorted(fp_seen.items()):
     lst.sort(key=lambda jw: (len(jw[0]["H"]), sum(map(len, jw[0]["H"]))))
     job, what = lst[0]
-    if fp not in res.known and fp != "pytype-crash" and len(res.violations) < 3:
+    if fp == "pytype-crash":   # not a C10 verdict, but the property could not be evaluated there
+      res.obligation("e2e:pytype-raised", False, "%s on mode=%s H=%s (%d programs)" % (what, job["mode"], job["H"], len(lst)))
+      continue
+    if fp not in res.known and len(res.violations) < 3:
       try:
         job = shrink_job(job, fp)
         what = next((w for f, w in judge(job, run_inproc(job)) if f == fp), what)
@@ -440,36 +474,38 @@ def run(res):
   # observed compute_mro tables vs the model, for both values of dupcheck
   res.obligation("e2e-observation:compute_mro-recorded-for-every-class", n_unobserved == 0,
                  "%d programs without a recorded compute_mro call for some class" % n_unobserved)
-  chunks_e = [ecases[k:k + per] for k in range(0, len(ecases), per)]
-  bodies = [("c10_e%d" % k, PREAMBLE + "Definition cases : list (list (list nat) * list (list nat)) := [\n" +
-             ";\n".join("(%s,%s)" % (coq_llist(j["H"]), coq_llist(o)) for j, o in ch) +
-             "].\nEval vm_compute in (map chk_e cases).\n") for k, ch in enumerate(chunks_e)]
-  outs = common.run_cases_parallel(bodies)
-  ok_false, ok_true, bad_f, bad_tr = True, True, [], []
-  for k, ch in enumerate(chunks_e):
-    ok, out = outs["c10_e%d" % k]
-    terms = common.parse_coq_eval(out)
-    pairs = re.findall(r"\((true|false), (true|false)\)", terms[0]) if ok and terms else []
-    if len(pairs) != len(ch):
-      res.obligation("model-run:cases.v(e2e)", False, out[-800:]); ok_false = ok_true = False
-      continue
-    for (job, obs), (a, b) in zip(ch, pairs):
-      if a != "true":
-        ok_false = False; bad_f.append((job["mode"], job["H"], obs))
-      if b != "true":
-        ok_true = False; bad_tr.append((job["mode"], job["H"], obs))
+  model_e = run_model(exe, ["T " + line_ll(j["H"]) for j, _ in ecases])
+  bad_f, bad_tr = [], []
+  for (job, obs), mo in zip(ecases, model_e):
+    _, mp_f, mp_t, _ = [x.strip() for x in mo.split("|")]
+    if parse_tab(mp_f) != obs:
+      bad_f.append((job["mode"], job["H"], "observed=%s model=%s" % (obs, parse_tab(mp_f))))
+    if parse_tab(mp_t) != obs:
+      bad_tr.append((job["mode"], job["H"], "observed=%s model=%s" % (obs, parse_tab(mp_t))))
   n_dup_obs = sum(1 for j, _ in ecases if has_dup(j["H"]))
-  if ok_false and not (ok_true and n_dup_obs):
-    flag = "false"
-  elif ok_true:
-    flag = "true"
-  else:
-    flag = None
+  flag = "false" if not bad_f else ("true" if not bad_tr else None)
   res.extra["dupcheck_established"] = flag
   res.extra["e2e_tables_with_repeated_base_observed"] = n_dup_obs
   res.obligation("correspondence:mros_py-vs-observed-compute_mro", flag is not None and n_dup_obs > 0,
                  "model with dupcheck=false disagrees on %d programs (first %s); with dupcheck=true on %d (first %s); "
                  "%d observed tables repeat a base" % (len(bad_f), bad_f[:1], len(bad_tr), bad_tr[:1], n_dup_obs))
+  # attribute lookup: model's lookup_c vs what CPython found, model's lookup_py vs what pytype inferred
+  name_id = {n: k + 1 for k, n in enumerate(g.ATTR_NAMES)}
+  model_l = run_model(exe, ["L %s %s %d %d" % (line_ll(j["H"]), line_ll([[name_id[x] for x in a] for a in j["attrs"]]), ci, name_id[n])
+                            for j, ci, n, _, _ in lookups])
+  bad_lc, bad_lp = [], []
+  for (j, ci, n, cdef, pdef), mo in zip(lookups, model_l):
+    lc, lp_f, lp_t = [x.strip() for x in mo.split("|")]
+    if lc != str(cdef):
+      bad_lc.append((j["H"], j["attrs"], ci, n, "cpython=%s model=%s" % (cdef, lc)))
+    lp = lp_t if flag == "true" else lp_f
+    if lp != str(pdef):
+      bad_lp.append((j["mode"], j["H"], j["attrs"], ci, n, "pytype=%s model=%s" % (pdef, lp)))
+  res.obligation("correspondence:lookup_c-vs-cpython-getattr", not bad_lc,
+                 "%d of %d lookups disagree; first: %s" % (len(bad_lc), len(lookups), bad_lc[:1]))
+  res.obligation("correspondence:lookup_py-vs-pytype-inferred-attribute-type", not bad_lp,
+                 "%d of %d lookups disagree; first: %s" % (len(bad_lp), len(lookups), bad_lp[:1]))
+  res.extra["lookups_compared"] = len(lookups)
   # which theorems speak about this tree
   res.extra["theorems_applicable"] = (
       ["mro_agree_with_dupcheck", "mro_error_iff_with_dupcheck", "lookup_agree_with_dupcheck"] if flag == "true" else
